@@ -252,7 +252,7 @@ def check(tier: str) -> int:
     plist = []
     nb = 64 if tier == "quick" else 600
     for b in range(nb):
-        n = rng.choice([1, 2, 3, 4, 5, 6, 8, 12]) if b % 12 else (40 if tier != "quick" or b == 0 else 20)
+        n = rng.choice([1, 2, 3, 4, 5, 6, 8, 12]) if b % 12 else (40 if tier != "quick" or b in (0, 36) else 20)
         # a failing job at every position over the batches of one size, plus batches without failures
         fail_at = [] if b % 4 == 3 else sorted({b % n} | ({rng.randrange(n)} if rng.random() < 0.3 else set()))
         plist.append({"seed": core.seed() * 9973 + b, "njobs": n, "nworkers": rng.randint(1, 4),
